@@ -595,7 +595,7 @@ func c20Main(r *engine.Run) {
 	r.Sample("call", callCase{"Geometry:GEOMETRYCOLLECTION EMPTY", "Geometry.Densify", []string{"1"}})
 	// 2. free functions over all ordered pairs (empties × empties, empties × non-empty)
 	alpha := BuildAlphabet(universe.Identity, 0)
-	nonEmpty := []Operand{alpha.Points[4], alpha.Segs[3], alpha.Paths[5], alpha.Polys[7], alpha.Multis[2], alpha.Multis[len(alpha.Multis)-1], alpha.GCs[3], alpha.GCs[len(alpha.GCs)-1]}
+	nonEmpty := []Operand{alpha.Points[4], alpha.Segs[3], alpha.Paths[5], alpha.Polys[7], alpha.Multis[2], alpha.Multis[len(alpha.Multis)-1], alpha.Multis[len(alpha.Multis)-3], alpha.GCs[3], alpha.GCs[len(alpha.GCs)-1]}
 	var args []geom.Geometry
 	args = append(args, pool...)
 	for _, o := range nonEmpty {
@@ -722,6 +722,12 @@ func c20Main(r *engine.Run) {
 	}
 	hf := HolesFamily(universe.Identity)
 	baseGeoms = append(baseGeoms, hf[0].G, hf[3].G)
+	// many members, far from the origin (an empty member must not be read as a point at (0 0)),
+	// and a loop drawn by three members (no boundary under the mod-2 rule)
+	baseGeoms = append(baseGeoms,
+		mls(L(P(10, 10), P(11, 10)), L(P(12, 10), P(13, 11)), L(P(14, 10), P(15, 10)), L(P(10, 12), P(11, 13)), L(P(12, 12), P(13, 12))),
+		mp(P(10, 10), P(11, 11), P(12, 10), P(13, 13), P(14, 10)),
+		mls(L(P(0, 0), P(2, 0)), L(P(2, 0), P(0, 2)), L(P(0, 2), P(0, 0))))
 	var bases []Operand
 	for _, g := range baseGeoms {
 		bases = append(bases, mkOp(g, "base"))
@@ -739,7 +745,11 @@ func c20Main(r *engine.Run) {
 		mkOp(id.Polygon(sqr(-3, -3, 9, 9)).AsGeometry(), "o"),
 		mkOp(geom.NewMultiPolygon([]geom.Polygon{id.Polygon(sqr(20, 20, 21, 21)), id.Polygon(sqr(-3, -3, 9, 9), sqr(7, 7, 8, 8))}).AsGeometry(), "o"),
 		mkOp(geom.NewGeometryCollection([]geom.Geometry{id.Point(P(30, 30)).AsGeometry(), id.Polygon(sqr(-4, -4, 10, 10)).AsGeometry()}).AsGeometry(), "o"),
-		mkOp(id.Line(L(P(40, 40), P(41, 45))).AsGeometry(), "o"))
+		mkOp(id.Line(L(P(40, 40), P(41, 45))).AsGeometry(), "o"),
+		// operands around the origin that none of the far bases meets
+		mkOp(id.Polygon(sqr(-1, -1, 1, 1)).AsGeometry(), "o"),
+		mkOp(geom.NewMultiPolygon([]geom.Polygon{id.Polygon(sqr(-2, -2, 0, 0)), id.Polygon(sqr(30, 30, 31, 31))}).AsGeometry(), "o"),
+		mkOp(id.Line(L(P(-1, 1), P(1, -1))).AsGeometry(), "o"))
 	if r.Parallel(len(bases), func(i int) {
 		g := bases[i]
 		ref, pnc := observe(g.G, others)
